@@ -200,6 +200,17 @@ var harnessIntrinsics = map[string]intrinsicFn{
 		t := termArg(a[0])
 		return in.ts.BVConst(in.concretize(t, "vConcretize"), int(t.sort.W))
 	},
+	"vGhostGet": func(in *Interp, _ *frame, _ *ssa.Function, a []Value) Value {
+		i := in.concreteInt(a[0], "vGhostGet")
+		if v, ok := in.ghost[i]; ok {
+			return v
+		}
+		return in.ts.BVConst(0, 64)
+	},
+	"vGhostSet": func(in *Interp, _ *frame, _ *ssa.Function, a []Value) Value {
+		in.ghost[in.concreteInt(a[0], "vGhostSet")] = termArg(a[1])
+		return nil
+	},
 	"vNoMerge": func(in *Interp, _ *frame, _ *ssa.Function, a []Value) Value {
 		in.noMerge = termArg(a[0]).BoolVal()
 		return nil
